@@ -25,16 +25,20 @@ CHECK_FN = 'MDownload.check_case'
 SHARD_SIZE = 200
 CASE_TIMEOUT = 30
 RULE = ('case = prior local state (archive file: absent / empty / proper prefix / same-size corrupt / longer / '
-        'complete-correct / complete-but-other; installed index: file absent / empty / other names / stale marker) x '
-        'flags (force, no_cleaning, untar ok / raises / real tar) x adversarial server given as two scripts consumed '
-        'in order: size probes (true size, absent header, header without total, wrong totals incl. 0 and negative, '
-        'unparsable total, connection error) and GETs (good or substituted content; Range honoured or ignored; '
-        'truncation, bit flip at any offset, trailing bytes, HTTP error page, connection error, exception in mid '
-        'stream).  Non-trivial = the server is contacted at least once AND (a fault is injected OR a prior archive / '
-        'marker exists).  distinct = distinct case dicts.  thorough: additionally EXHAUSTIVE over '
-        '{archives of 0..4 bytes} x {all prior archive states above} x {5 constant probe policies} x '
-        '{per-attempt GET policy: honest, Range ignored, substituted content (with / without Range), trailing byte, '
-        'connection error, truncation / bit flip / mid-stream exception at every offset}^2.')
+        'complete-correct / complete-but-other; installed index: file absent / empty / other names / stale marker; '
+        'stray files next to the archive such as <archive>.sha256 / .ok / .part) + a HISTORY of 1..4 calls (install or '
+        'download; force, no_cleaning, untar ok / raises / real tar) run on the SAME install directory with nothing '
+        'cleaned in between, each call against its own adversarial server given as two scripts consumed in order: '
+        'size probes (true size, absent header, header without total, wrong totals incl. 0 and negative, unparsable '
+        'total, connection error) and GETs (good or substituted content incl. same length / different bytes; Range '
+        'honoured or ignored; truncation, bit flip at any offset, trailing bytes, HTTP error page, connection error, '
+        'exception in mid stream).  The model is iterated over the history carrying only archive bytes and index; '
+        'every step is compared and judged.  Non-trivial = the server is contacted at least once AND (more than one '
+        'call OR a fault is injected OR a prior archive / marker exists).  distinct = distinct case dicts.  thorough: '
+        'additionally EXHAUSTIVE (single call) over {archives of 0..4 bytes} x {all prior archive states above} x '
+        '{5 constant probe policies} x {per-attempt GET policy: honest, Range ignored, substituted content (with / '
+        'without Range), trailing byte, connection error, truncation / bit flip / mid-stream exception at every '
+        'offset}^2.')
 TRUSTED = ['hashlib.sha256 as the reference digest in the oracle and in the sha table handed to the model '
            '(kapture.compute_sha256sum is the code under test and is NOT used by the harness)',
            'the fake server: requests.Session.request replaced by harness code building real requests.Response objects',
@@ -46,8 +50,9 @@ ASSUMPTIONS = ['single process, no concurrent modification of the install direct
                'the installed index file, when present, holds a YAML list of names (or is empty)',
                'an extraction failure (untar_file raising) on a VERIFIED archive is a local fault, not a server '
                'behaviour: the property then requires only that nothing is marked installed',
-               'C17_any_history composes single calls: the only state carried from one call to the next is the archive '
-               'file and the installed index file (each call is run by the harness from an arbitrary such state)',
+               'C17_any_history: the only state the model carries from one call to the next is the archive file and the '
+               'installed index; the harness runs whole histories on one directory so that any other persistent state '
+               'of the implementation that changes a later call shows up as a mismatch / oracle failure',
                'adaptive servers are covered because the client is deterministic: a server strategy is a function of '
                'the request history, which is what the Coq theorems quantify over']
 EXHAUSTIVE = {'quick': False, 'thorough': True}
@@ -106,15 +111,54 @@ def G(src='good', rng='honour', cut=None, flip=None, extra='', stream_err=False,
             'conn': conn, 'http': http}
 
 
-def mk(good, alt=None, prior=None, index=None, force=False, nc=False, untar='fake', probes=(), gets=(),
-       probe_default=None, get_default=None, expected=None, via='dataset', chunk=None, tag=''):
+STEP_KEYS = ('kind', 'force', 'no_cleaning', 'untar', 'via', 'probes', 'gets', 'probe_default', 'get_default', 'chunk')
+
+
+def S(kind='install', force=False, nc=False, untar='fake', via='dataset', probes=(), gets=(),
+      probe_default=None, get_default=None, chunk=None):
+    """one call (`install` or `download`) of a history, with its own server scripts"""
+    return {'kind': kind, 'force': force, 'no_cleaning': nc, 'untar': untar, 'via': via,
+            'probes': [list(p) for p in probes], 'gets': [dict(g) for g in gets],
+            'probe_default': list(probe_default or P('true')), 'get_default': dict(get_default or G()),
+            'chunk': chunk}
+
+
+def hist(good, steps, alt=None, prior=None, index=None, stray=(), expected=None, tag=''):
+    """a case: prior local state + a history of calls on the same install directory"""
     return {'good': H(good), 'alt': H(alt if alt is not None else bytes(reversed(good)) + b'!'),
             'expected': expected if expected is not None else sha(good),
             'prior_archive': None if prior is None else H(prior), 'prior_index': index,
-            'force': force, 'no_cleaning': nc, 'untar': untar, 'via': via,
-            'probes': [list(p) for p in probes], 'gets': [dict(g) for g in gets],
-            'probe_default': list(probe_default or P('true')), 'get_default': dict(get_default or G()),
-            'chunk': chunk, 'tag': tag}
+            'stray': [list(x) for x in stray], 'steps': [dict(t) for t in steps], 'tag': tag}
+
+
+def mk(good, alt=None, prior=None, index=None, force=False, nc=False, untar='fake', probes=(), gets=(),
+       probe_default=None, get_default=None, expected=None, via='dataset', chunk=None, tag='', stray=()):
+    """a single-call case"""
+    return hist(good, [S('install', force, nc, untar, via, probes, gets, probe_default, get_default, chunk)],
+                alt=alt, prior=prior, index=index, stray=stray, expected=expected, tag=tag)
+
+
+def normalise(case):
+    """accept the older single-call layout (flags and scripts at top level)"""
+    if 'steps' in case:
+        case.setdefault('stray', [])
+        return case
+    c = {k: v for k, v in case.items() if k not in STEP_KEYS}
+    c['steps'] = [{k: case.get(k) for k in STEP_KEYS}]
+    c['steps'][0]['kind'] = 'install'
+    c['stray'] = case.get('stray', [])
+    return c
+
+
+def stray_files(good, rng=None):
+    """files a careless implementation might mistake for state: next to the archive, never part of the protocol"""
+    d, n = sha(good), len(good)
+    pool = [[NAME + '.tar.gz.sha256', f'{d} {n}\n'], [NAME + '.tar.gz.sha256', d], [NAME + '.tar.gz.ok', 'ok\n'],
+            [NAME + '.tar.gz.part', 'partial'], [NAME + '.sha256', f'{d}  {NAME}.tar.gz\n'],
+            ['.' + NAME + '.verified', f'{d} {n}'], [NAME + '.tar.gz.size', str(n)], ['notes.txt', 'mine']]
+    if rng is None:
+        return pool
+    return rng.sample(pool, rng.choice([1, 2, 3]))
 
 
 def flipped(b, k):
@@ -292,9 +336,9 @@ def gen_cases(rng, tier):
         sub = []
         exhaustive_small(sub, [b'', b'ab', b'abcd'], full=False)
         rng.shuffle(sub)
-        cases.extend(sub[:500])
+        cases.extend(sub[:450])
     # --- D. random compositions
-    n_rand = 6000 if thorough else 900
+    n_rand = 6000 if thorough else 750
     for _ in range(n_rand):
         n = rng.choice([0, 1, 2, 3, 5, 8, 13, 40])
         printable = rng.random() < 0.8
@@ -316,7 +360,80 @@ def gen_cases(rng, tier):
                         get_default=rand_get(rng, n) if rng.random() < 0.4 else G(),
                         via='command' if rng.random() < 0.05 else 'dataset',
                         chunk=rng.choice([None, None, 1, 3]), tag='random'))
+    # --- E. histories: several calls on the same install directory
+    cases.extend(gen_histories(rng, thorough))
     return cases
+
+
+def gen_histories(rng, thorough):
+    out = []
+    tar, tar2 = make_tar(1), make_tar(2)
+    assert len(tar) == len(tar2)
+    for good, alt, untar in [(b'kapture-archive', b'evil-archive-xx', 'fake'), (tar, tar2, 'real')]:
+        n = len(good)
+        same_len = G(src='alt', rng='ignore')
+        faults = [('same-length-substitute', same_len), ('bitflip-last', G(flip=n - 1)), ('bitflip-mid', G(flip=n // 2)),
+                  ('truncated', G(cut=n // 2)), ('trailing', G(extra=H(b'+'))), ('down', G(conn=True))]
+        for fn, g in faults:
+            for nc in (False, True):
+                # verified install, then forced re-install against a faulty server
+                out.append(hist(good, [S(untar=untar, nc=nc), S(force=True, untar=untar, get_default=g)], alt=alt,
+                                tag=f'hist/install>force-install/{fn}'))
+                # verified download, forced re-download from a faulty server, then install (server still faulty)
+                out.append(hist(good, [S('download'), S('download', force=True, get_default=g),
+                                       S(untar=untar, nc=nc, get_default=g)], alt=alt,
+                                tag=f'hist/download>force-download>install/{fn}'))
+            # verified install keeping the archive, faulty forced download, install --force with the server down
+            out.append(hist(good, [S(untar=untar, nc=True), S('download', force=True, get_default=g),
+                                   S(force=True, untar=untar, get_default=G(conn=True))], alt=alt,
+                            tag=f'hist/install-keep>force-download>force-install/{fn}'))
+            # failed install first, then a good one, then a forced faulty one
+            out.append(hist(good, [S(untar=untar, get_default=g), S(untar=untar), S(force=True, untar=untar, get_default=g),
+                                   S('download', get_default=g)], alt=alt, index=OTHERS,
+                            tag=f'hist/fail>install>force-install>download/{fn}'))
+        # stray files next to the archive: single calls and histories
+        for sf in stray_files(good):
+            for prior in (None, alt, good[:n // 2]):
+                out.append(mk(good, alt=alt, prior=prior, untar=untar, stray=[sf], get_default=same_len,
+                              tag='stray/single'))
+            out.append(hist(good, [S(untar=untar), S(force=True, untar=untar, get_default=same_len)], alt=alt,
+                            stray=[sf], tag='stray/install>force-install'))
+    # random histories
+    n_rand = 2500 if thorough else 260
+    for _ in range(n_rand):
+        n = rng.choice([1, 2, 3, 5, 8, 13])
+        good = rand_bytes(rng, n)
+        alt = rand_bytes(rng, n)               # same length, different bytes
+        if alt == good:
+            alt = flipped(good, 0)
+        prior = None
+        if rng.random() < 0.3:
+            prior = rng.choice(priors_for(good, alt))[1]
+        marker = rng.random() < 0.15
+        steps = []
+        for k in range(rng.choice([2, 2, 3, 3, 4])):
+            r = rng.random()
+            if k == 0 and r < 0.6 or r < 0.3:
+                g = G()
+            elif r < 0.5:
+                g = G(src='alt', rng=rng.choice(['ignore', 'honour']))
+            elif r < 0.65:
+                g = G(flip=rng.randrange(n))
+            elif r < 0.8:
+                g = G(cut=rng.randrange(n + 1), stream_err=rng.random() < 0.3)
+            else:
+                g = rand_get(rng, n)
+            kind = 'download' if rng.random() < 0.3 else 'install'
+            steps.append(S(kind, force=rng.random() < (0.6 if k > 0 else 0.2), nc=rng.random() < 0.4,
+                           untar='fake_raises' if rng.random() < 0.05 else 'fake',
+                           via='command' if rng.random() < 0.05 else 'dataset',
+                           probes=[rand_probe(rng, n) for _ in range(rng.choice([0, 0, 0, 2]))],
+                           gets=[g] if rng.random() < 0.3 else [],
+                           probe_default=rand_probe(rng, n) if rng.random() < 0.1 else P('true'),
+                           get_default=g if rng.random() < 0.7 else G(), chunk=rng.choice([None, None, 2])))
+        out.append(hist(good, steps, alt=alt, prior=prior, index=rand_index(rng, marker),
+                        stray=stray_files(good, rng) if rng.random() < 0.25 else (), tag='hist/random'))
+    return out
 
 
 # ------------------------------------------------------------------ fake server
@@ -346,8 +463,8 @@ class FakeRaw:
 
 
 class FakeServer:
-    def __init__(self, case):
-        self.case = case
+    def __init__(self, case, step):
+        self.case = step          # the scripts of this call
         self.good, self.alt = B(case['good']), B(case['alt'])
         self.n_probe = self.n_get = 0
         self.requests = []      # abstract requests, in order
@@ -443,13 +560,13 @@ def _read_index(root):
 
 
 def _tree(root):
+    """files of the dataset folder (where archives are extracted to): path -> digest"""
     snap = {}
-    for d, dirs, files in os.walk(root):
+    top = os.path.join(root, NAME)
+    for d, dirs, files in os.walk(top):
         for n in files:
             p = os.path.join(d, n)
             rel = os.path.relpath(p, root).replace('\\', '/')
-            if rel in (INDEX_YAML, INSTALLED_YAML, 'kapture_dataset_licenses.yaml', NAME + '.tar.gz'):
-                continue
             with open(p, 'rb') as f:
                 snap[rel] = hashlib.sha256(f.read()).hexdigest()[:12]
     return snap
@@ -460,9 +577,9 @@ def run_impl(case, ctx):
     import yaml
     import kapture_download_dataset as kdd
     import kapture.converter.downloader.archives as karch
-    import kapture.converter.downloader.download as kdl
     import kapture.utils.upgrade as kupg
 
+    case = normalise(case)
     root = os.path.join(ctx['tmp'], 'install')
     shutil.rmtree(root, ignore_errors=True)
     os.makedirs(root)
@@ -485,10 +602,11 @@ def run_impl(case, ctx):
         os.makedirs(os.path.join(root, NAME, 'sensors'))
         with open(os.path.join(root, NAME, 'sensors', 'sensors.txt'), 'wt') as f:
             f.write('# kapture format: 1.1\n')
-    tree_before = _tree(root)
+    for rel, text in case['stray']:
+        with open(os.path.join(root, rel), 'wt') as f:
+            f.write(text)
 
-    server = FakeServer(case)
-    events = []
+    cur = {'server': None, 'events': None, 'step': None}
     orig_untar = karch.untar_file
 
     def marked_now():
@@ -497,10 +615,12 @@ def run_impl(case, ctx):
     def untar_recorder(archive_filepath, install_dirpath, *a, **kw):
         with open(archive_filepath, 'rb') as f:
             data = f.read()
-        events.append(['extract', H(data), marked_now(), os.path.abspath(install_dirpath) == os.path.abspath(root)])
-        if case['untar'] == 'real':
+        cur['events'].append(['extract', H(data), marked_now(),
+                              os.path.abspath(install_dirpath) == os.path.abspath(root)])
+        mode = cur['step']['untar']
+        if mode == 'real':
             return orig_untar(archive_filepath, install_dirpath, *a, **kw)
-        if case['untar'] == 'fake_raises':
+        if mode == 'fake_raises':
             raise OSError('No space left on device (scripted)')
         d = os.path.join(install_dirpath, NAME, 'sensors')
         os.makedirs(d, exist_ok=True)
@@ -508,7 +628,7 @@ def run_impl(case, ctx):
             f.write('# kapture format: 1.0\n')
 
     def upgrade_recorder(*a, **kw):
-        events.append(['upgrade', marked_now()])
+        cur['events'].append(['upgrade', marked_now()])
 
     def orphan_recorder(*a, **kw):
         return None
@@ -522,88 +642,123 @@ def run_impl(case, ctx):
 
     dl_logger = logging.getLogger('downloader')
     old_level = dl_logger.level
-    outcome, exc = None, None
+    steps_obs = []
     try:
         dl_logger.setLevel(logging.CRITICAL + 10)
-        patch(requests.Session, 'request', lambda self, method, url, **kw: server.request(self, method, url, **kw))
+        patch(requests.Session, 'request',
+              lambda self, method, url, **kw: cur['server'].request(self, method, url, **kw))
         for m in (karch, kdd):
             patch(m, 'untar_file', untar_recorder)
         for m in (kupg, kdd):
             patch(m, 'upgrade_1_0_to_1_1_inplace', upgrade_recorder)
             patch(m, 'upgrade_1_0_to_1_1_orphan_features', orphan_recorder)
-        try:
-            if case['via'] == 'command':
-                args = types.SimpleNamespace(cmd='install', install_path=root, dataset=[NAME], force=case['force'],
-                                             no_cleaning=case['no_cleaning'])
-                kdd.kapture_download_dataset(args, index_path)
-                outcome = 'returned'
-            else:
-                install_dir = kdd.InstallDir(index_filepath=index_path, install_dir_path=root)
-                dataset = install_dir.load_datasets_from_file()[NAME]
-                outcome = dataset.install(force_overwrite=case['force'], no_cleaning=case['no_cleaning'])
-                if not isinstance(outcome, str):
-                    outcome = 'non-string:' + repr(outcome)
-        except HarnessSurprise:
-            raise
-        except Exception as e:
-            outcome, exc = 'raised', f'{type(e).__name__}: {e}'[:200]
+        # the whole history runs on the same directory; nothing is cleaned between the calls
+        for step in case['steps']:
+            server = FakeServer(case, step)
+            cur.update(server=server, events=[], step=step)
+            index_before = _read_index(root)
+            archive_before = None
+            if os.path.isfile(archive_path):
+                with open(archive_path, 'rb') as f:
+                    archive_before = H(f.read())
+            tree_before = _tree(root)
+            outcome, exc = None, None
+            try:
+                if step['via'] == 'command':
+                    args = types.SimpleNamespace(cmd=step['kind'], install_path=root, dataset=[NAME],
+                                                 force=step['force'], no_cleaning=step['no_cleaning'])
+                    kdd.kapture_download_dataset(args, index_path)
+                    outcome = 'returned'
+                else:      # a fresh InstallDir / Dataset per call, as a new process would have
+                    install_dir = kdd.InstallDir(index_filepath=index_path, install_dir_path=root)
+                    dataset = install_dir.load_datasets_from_file()[NAME]
+                    if step['kind'] == 'install':
+                        outcome = dataset.install(force_overwrite=step['force'], no_cleaning=step['no_cleaning'])
+                    else:
+                        outcome = dataset.download(force_overwrite=step['force'])
+                    if not isinstance(outcome, str):
+                        outcome = 'non-string:' + repr(outcome)
+            except HarnessSurprise:
+                raise
+            except Exception as e:
+                outcome, exc = 'raised', f'{type(e).__name__}: {e}'[:200]
+            archive_after = None
+            if os.path.isfile(archive_path):
+                with open(archive_path, 'rb') as f:
+                    archive_after = H(f.read())
+            tree_after = _tree(root)
+            changed = sorted(k for k in set(tree_before) | set(tree_after) if tree_before.get(k) != tree_after.get(k))
+            steps_obs.append({'outcome': outcome, 'exc': exc, 'archive_before': archive_before,
+                              'archive': archive_after, 'index_before': index_before, 'index': _read_index(root),
+                              'requests': server.requests, 'trace': server.trace, 'events': cur['events'],
+                              'tree_changed': changed})
     finally:
         for obj, attr, val in reversed(patches):
             setattr(obj, attr, val)
         dl_logger.setLevel(old_level)
-
-    archive_after = None
-    if os.path.isfile(archive_path):
-        with open(archive_path, 'rb') as f:
-            archive_after = H(f.read())
-    tree_after = _tree(root)
-    changed = sorted(k for k in set(tree_before) | set(tree_after) if tree_before.get(k) != tree_after.get(k))
-    obs = {'outcome': outcome, 'exc': exc, 'archive': archive_after, 'index': _read_index(root),
-           'prior_names': prior_names, 'requests': server.requests, 'trace': server.trace, 'events': events,
-           'tree_changed': changed}
+    leftovers = sorted(n for n in os.listdir(root)
+                       if n not in (INDEX_YAML, INSTALLED_YAML, NAME + '.tar.gz', NAME) and
+                       n not in [x[0] for x in case['stray']])
     shutil.rmtree(root, ignore_errors=True)
-    return obs
+    return {'prior_names': prior_names, 'steps': steps_obs, 'leftovers': leftovers}
 
 
 # ------------------------------------------------------------------ the property, directly
-def oracle(case, obs):
-    """C17 on what the implementation did; uses hashlib, never the Coq model."""
+def oracle_step(case, step, o):
+    """C17 on one call, given the state the call started from (as observed); hashlib, never the Coq model."""
     expected = case['expected']
-    prior = set(obs['prior_names'])
-    final = set(obs['index'])
-    extracts = [e for e in obs['events'] if e[0] == 'extract']
-    upgrades = [e for e in obs['events'] if e[0] == 'upgrade']
+    prior = set(o['index_before'])
+    final = set(o['index'])
+    extracts = [e for e in o['events'] if e[0] == 'extract']
+    upgrades = [e for e in o['events'] if e[0] == 'upgrade']
     for e in extracts:
         if sha(B(e[1])) != expected:
             return 'an archive whose sha256 differs from the published checksum was extracted'
         if not e[3]:
             return 'extraction went to a directory other than the install root'
-    ok_extract = bool(extracts) and case['untar'] != 'fake_raises'
-    stale_kept = NAME in prior and not case['force']
+    if final - {NAME} != prior - {NAME}:
+        return 'installed markers of other datasets changed'
+    if step['kind'] == 'download':
+        if extracts or upgrades or o['tree_changed']:
+            return 'the download command extracted / upgraded / changed the dataset folder'
+        if (NAME in final) != (NAME in prior):
+            return 'the download command changed the installed marker'
+        return None
+    ok_extract = bool(extracts) and step['untar'] != 'fake_raises'
+    stale_kept = NAME in prior and not step['force']
     if NAME in final and not stale_kept and not ok_extract:
         return 'dataset marked installed without a verified extraction'
-    success = obs['outcome'] == 'installed' or (obs['outcome'] == 'returned' and NAME in final)
-    if obs['outcome'] == 'installed' and NAME not in final:
+    success = o['outcome'] == 'installed' or (o['outcome'] == 'returned' and NAME in final)
+    if o['outcome'] == 'installed' and NAME not in final:
         return 'install reported success but the dataset is not recorded as installed'
     if not success:
         if NAME in final:
             return 'failure outcome but the dataset is marked installed'
-        if extracts and case['untar'] != 'fake_raises':
+        if extracts and step['untar'] != 'fake_raises':
             return 'failure outcome but an archive was extracted'
         if upgrades:
             return 'failure outcome but the upgrade ran'
-        if obs['tree_changed'] and not extracts:
-            return 'failure outcome but files appeared in the install directory: ' + ','.join(obs['tree_changed'][:3])
+        if o['tree_changed'] and not extracts:
+            return 'failure outcome but files changed in the dataset folder: ' + ','.join(o['tree_changed'][:3])
     if stale_kept:
-        if extracts or obs['tree_changed']:
+        if extracts or o['tree_changed']:
             return 'already-installed dataset was extracted again without force'
     else:
         if any(e[2] for e in extracts):
             return 'dataset was marked installed before its archive was extracted'
-        if obs['tree_changed'] and not extracts:
-            return 'files changed in the install directory without any extraction: ' + ','.join(obs['tree_changed'][:3])
-    if final - {NAME} != prior - {NAME}:
-        return 'installed markers of other datasets changed'
+        if o['tree_changed'] and not extracts:
+            return 'files changed in the dataset folder without any extraction: ' + ','.join(o['tree_changed'][:3])
+    return None
+
+
+def oracle(case, obs):
+    case = normalise(case)
+    for step, o in zip(case['steps'], obs['steps']):
+        sig = oracle_step(case, step, o)
+        if sig:
+            return sig
+    if len(obs['steps']) != len(case['steps']):
+        return 'history not run to the end'
     return None
 
 
@@ -620,24 +775,30 @@ def _creq(r):
 
 
 def sha_table(case, obs):
-    """digests (hashlib) of every content the archive file can take: closure of the prior content and the
-    downloaded bodies, in order, under replace and append"""
+    """digests (hashlib) of every content the archive file can take: per call, closure of the content before the
+    call and the downloaded bodies, in order, under replace and append"""
     contents = set()
     if case['prior_archive'] is not None:
         contents.add(B(case['prior_archive']))
-    for t, r in zip(obs['trace'], obs['requests']):      # each download replaces the file or appends to it
-        if r[0] != 'probe' and not t['conn']:
-            b = B(t['body'])
-            contents |= {b} | {c + b for c in contents}
-    for e in obs['events']:
-        if e[0] == 'extract':
-            contents.add(B(e[1]))
-    if obs['archive'] is not None:
-        contents.add(B(obs['archive']))
+    for o in obs['steps']:
+        cur = set()
+        if o['archive_before'] is not None:
+            cur.add(B(o['archive_before']))
+        for t, r in zip(o['trace'], o['requests']):      # each download replaces the file or appends to it
+            if r[0] != 'probe' and not t['conn']:
+                b = B(t['body'])
+                cur |= {b} | {c + b for c in cur}
+        for e in o['events']:
+            if e[0] == 'extract':
+                cur.add(B(e[1]))
+        if o['archive'] is not None:
+            cur.add(B(o['archive']))
+        contents |= cur
     return sorted((c, sha(c)) for c in contents)
 
 
 def encode(case, obs):
+    case = normalise(case)
     pool = {}
 
     def lit(b):
@@ -660,48 +821,50 @@ def encode(case, obs):
         p = {'none': 'PNone', 'err': 'PErr'}.get(t['probe'][0]) or '(PSize %s)' % kv.cz(t['probe'][1])
         return '(mkResp %s %s %s %s)' % (kv.cbool(t['conn']), p, cb(t['body']), kv.cbool(t['stream_err']))
 
-    if obs['outcome'] == 'raised':
-        oc = 'ORaised'
-    elif obs['outcome'] == 'returned':
-        oc = 'OReturned'
-    else:
-        oc = '(OStatus %s)' % kv.cstr(obs['outcome'])
-    evs = []
-    for e in obs['events']:
-        if e[0] == 'extract':
-            evs.append('(EExtract %s %s)' % (cb(e[1]), kv.cbool(e[2])))
+    steps = []
+    for step, o in zip(case['steps'], obs['steps']):
+        if o['outcome'] == 'raised':
+            oc = 'ORaised'
+        elif o['outcome'] == 'returned':
+            oc = 'OReturned'
         else:
-            evs.append('(EUpgrade %s)' % kv.cbool(e[1]))
+            oc = '(OStatus %s)' % kv.cstr(o['outcome'])
+        evs = []
+        for e in o['events']:
+            if e[0] == 'extract':
+                evs.append('(EExtract %s %s)' % (cb(e[1]), kv.cbool(e[2])))
+            else:
+                evs.append('(EUpgrade %s)' % kv.cbool(e[1]))
+        steps.append('{| t_kind := %s; t_force := %s; t_noclean := %s; t_untar_fails := %s; t_script := %s; '
+                     'o_outcome := %s; o_archive := %s; o_index := %s; o_requests := %s; o_log := %s |}' % (
+                         'KInstall' if step['kind'] == 'install' else 'KDownload', kv.cbool(step['force']),
+                         kv.cbool(step['no_cleaning']), kv.cbool(step['untar'] == 'fake_raises'),
+                         kv.clist(cresp(t) for t in o['trace']), oc,
+                         kv.copt(None if o['archive'] is None else cb(o['archive'])),
+                         kv.clist(kv.cstr(x) for x in o['index']),
+                         kv.clist(_creq(r) for r in o['requests']), kv.clist(evs)))
     tbl = kv.clist(kv.cpair(cb(c), kv.cstr(d)) for c, d in sha_table(case, obs))
-    body = ('{| c_name := %s; c_expected := %s; c_sha := %s; c_force := %s; c_noclean := %s; c_untar_fails := %s; '
-            'c_archive := %s; c_index := %s; c_script := %s; o_outcome := %s; o_archive := %s; o_index := %s; '
-            'o_requests := %s; o_log := %s |}' % (
-                kv.cstr(NAME), kv.cstr(case['expected']), tbl, kv.cbool(case['force']), kv.cbool(case['no_cleaning']),
-                kv.cbool(case['untar'] == 'fake_raises'),
-                kv.copt(None if case['prior_archive'] is None else cb(case['prior_archive'])),
-                kv.clist(kv.cstr(x) for x in obs['prior_names']),
-                kv.clist(cresp(t) for t in obs['trace']), oc,
-                kv.copt(None if obs['archive'] is None else cb(obs['archive'])),
-                kv.clist(kv.cstr(x) for x in obs['index']),
-                kv.clist(_creq(r) for r in obs['requests']), kv.clist(evs)))
+    body = ('{| c_name := %s; c_expected := %s; c_sha := %s; c_archive := %s; c_index := %s; c_steps := %s |}' % (
+        kv.cstr(NAME), kv.cstr(case['expected']), tbl,
+        kv.copt(None if case['prior_archive'] is None else cb(case['prior_archive'])),
+        kv.clist(kv.cstr(x) for x in obs['prior_names']), kv.clist(steps)))
     lets = ''.join('let %s : string := %s in\n ' % (n, lit(b)) for b, n in pool.items())
     return '(' + lets + body + ')'
 
 
 # ------------------------------------------------------------------ evidence helpers
-def _faulty(case):
-    def bad_g(g):
-        return g != G()
-    def bad_p(p):
-        return p[0] != 'true'
-    return (any(bad_g(g) for g in case['gets']) or bad_g(case['get_default']) or
-            any(bad_p(p) for p in case['probes']) or bad_p(case['probe_default']) or
-            case['expected'] != sha(B(case['good'])) or case['untar'] == 'fake_raises')
+def _faulty_step(case, t):
+    return (any(g != G() for g in t['gets']) or t['get_default'] != G() or
+            any(p[0] != 'true' for p in t['probes']) or t['probe_default'][0] != 'true' or
+            t['untar'] == 'fake_raises')
 
 
 def nontrivial(case, obs):
-    return bool(obs['requests']) and (_faulty(case) or case['prior_archive'] is not None or
-                                      NAME in obs['prior_names'])
+    case = normalise(case)
+    contacted = any(o['requests'] for o in obs['steps'])
+    return contacted and (len(case['steps']) > 1 or any(_faulty_step(case, t) for t in case['steps']) or
+                          case['expected'] != sha(B(case['good'])) or case['prior_archive'] is not None or
+                          NAME in obs['prior_names'])
 
 
 def _prior_kind(case):
@@ -715,10 +878,18 @@ def _prior_kind(case):
     return 'corrupt-same' if len(p) == len(g) else 'longer'
 
 
+def _out(o):
+    return o['outcome'] if o['outcome'] != 'raised' else 'raised:' + (o['exc'] or '').split(':')[0]
+
+
 def classify(case, obs):
+    case = normalise(case)
     marker = 'marker' if NAME in obs['prior_names'] else 'nomarker'
-    out = obs['outcome'] if obs['outcome'] != 'raised' else 'raised:' + (obs['exc'] or '').split(':')[0]
-    return 'prior=%s/%s%s/-> %s' % (_prior_kind(case), marker, '+force' if case['force'] else '', out)
+    if len(case['steps']) == 1:
+        t = case['steps'][0]
+        return 'prior=%s/%s%s/-> %s' % (_prior_kind(case), marker, '+force' if t['force'] else '', _out(obs['steps'][0]))
+    return 'history/' + ' > '.join('%s%s: %s' % (t['kind'], '+force' if t['force'] else '', _out(o).replace('raised:', '!'))
+                                   for t, o in zip(case['steps'], obs['steps']))
 
 
 def _short(h):
@@ -726,21 +897,34 @@ def _short(h):
 
 
 def describe(case, obs):
-    return {'tag': case['tag'], 'prior_archive': _short(case['prior_archive']), 'good': _short(case['good']),
-            'prior_index': case['prior_index'], 'force': case['force'], 'untar': case['untar'],
-            'probes': case['probes'], 'probe_default': case['probe_default'],
-            'gets': case['gets'], 'get_default': case['get_default'],
-            'observed': {'outcome': obs['outcome'], 'exc': obs['exc'], 'requests': obs['requests'],
-                         'archive_after': _short(obs['archive']), 'index_after': obs['index'],
-                         'events': [[e[0], _short(e[1])] + e[2:] if e[0] == 'extract' else e for e in obs['events']]}}
+    case = normalise(case)
+    return {'tag': case.get('tag'), 'prior_archive': _short(case['prior_archive']), 'good': _short(case['good']),
+            'alt': _short(case['alt']), 'prior_index': case['prior_index'], 'stray': case['stray'],
+            'files_left_next_to_archive': obs.get('leftovers'),
+            'steps': [{'call': {k: t[k] for k in ('kind', 'force', 'no_cleaning', 'untar', 'probes', 'probe_default',
+                                                  'gets', 'get_default')},
+                       'observed': {'outcome': o['outcome'], 'exc': o['exc'], 'requests': o['requests'],
+                                    'archive_after': _short(o['archive']), 'index_after': o['index'],
+                                    'events': [[e[0], _short(e[1])] + e[2:] if e[0] == 'extract' else e
+                                               for e in o['events']]}}
+                      for t, o in zip(case['steps'], obs['steps'])]}
 
 
 def shrink(case):
-    for key in ('probes', 'gets'):
-        for i in range(len(case[key])):
-            c = dict(case)
-            c[key] = case[key][:i] + case[key][i + 1:]
-            yield c
+    case = normalise(case)
+
+    def with_steps(steps):
+        c = dict(case)
+        c['steps'] = steps
+        return c
+    # drop whole calls first
+    if len(case['steps']) > 1:
+        for i in range(len(case['steps'])):
+            yield with_steps(case['steps'][:i] + case['steps'][i + 1:])
+    if case['stray']:
+        c = dict(case)
+        c['stray'] = []
+        yield c
     if case['prior_archive'] is not None:
         c = dict(case)
         c['prior_archive'] = None
@@ -749,27 +933,30 @@ def shrink(case):
         c = dict(case)
         c['prior_index'] = [NAME] if isinstance(case['prior_index'], list) and NAME in case['prior_index'] else None
         yield c
-    for key in ('probe_default', 'get_default'):
-        dflt = P('true') if key == 'probe_default' else G()
-        if case[key] != dflt:
-            c = dict(case)
-            c[key] = dflt
-            yield c
-    for i, g in enumerate(case['gets']):
-        for f, v in G().items():
-            if g.get(f) != v:
-                c = dict(case)
-                c['gets'] = [dict(x) for x in case['gets']]
-                c['gets'][i][f] = v
-                yield c
-    if case['no_cleaning']:
-        c = dict(case)
-        c['no_cleaning'] = False
-        yield c
-    if case.get('chunk'):
-        c = dict(case)
-        c['chunk'] = None
-        yield c
+    for i, t in enumerate(case['steps']):
+        def upd(**kw):
+            t2 = dict(t)
+            t2.update(kw)
+            return with_steps(case['steps'][:i] + [t2] + case['steps'][i + 1:])
+        for key in ('probes', 'gets'):
+            for j in range(len(t[key])):
+                yield upd(**{key: t[key][:j] + t[key][j + 1:]})
+        if t['probe_default'] != P('true'):
+            yield upd(probe_default=P('true'))
+        if t['get_default'] != G():
+            yield upd(get_default=G())
+        for j, g in enumerate(t['gets']):
+            for f, v in G().items():
+                if g.get(f) != v:
+                    gs = [dict(x) for x in t['gets']]
+                    gs[j][f] = v
+                    yield upd(gets=gs)
+        if t['no_cleaning']:
+            yield upd(no_cleaning=False)
+        if t['chunk']:
+            yield upd(chunk=None)
+        if t['via'] != 'dataset':
+            yield upd(via='dataset')
 
 
 TECHNIQUE = ('Coq proof of a protocol invariant for every server (a universally quantified function of the request '
@@ -784,7 +971,8 @@ LEVEL_TEXT = ('Theorems in coq/Props/C17.v hold for every server strategy, every
               'upgrade; other datasets\' markers never change; install never returns "downloaded"/"not installed"; the '
               'invariant composes over any history of calls (C17_any_history); an '
               'honest server always leads to a verified installation from every prior state. The model is tied to the '
-              'code by running the real Dataset.install / install command against a fake requests layer and comparing '
+              'code by running histories of real Dataset.install / Dataset.download / command calls on one install directory '
+              'against a fake requests layer and comparing, per call, '
               'status, archive file, installed index, request sequence (incl. Range offsets) and extraction / upgrade '
               'log inside Coq.')
 LEVEL_NOTE = ('Trusted: Coq kernel + vm_compute, harness (fake server, encoders), hashlib as reference SHA-256, local file '
